@@ -145,6 +145,8 @@ pub open spec fn blake2b_init_work(h: Seq<u64>, t: nat, last: bool) -> Seq<u64> 
 }
 
 /// F(h, m, t, f): twelve rounds, then h[i] ^= v[i] ^ v[i+8]
+/// (opaque only to keep client proofs cheap: `reveal(compress_rfc)` where the body is needed; `compute` sees it)
+#[verifier::opaque]
 pub open spec fn compress_rfc(h: Seq<u64>, block: Seq<u8>, t: nat, last: bool) -> Seq<u64> {
     let v = blake2b_rounds(blake2b_init_work(h, t, last), blake2b_msg_words(block), 12);
     Seq::new(8, |i: int| h[i] ^ v[i] ^ v[i + 8])
